@@ -5,11 +5,30 @@ stale hash is explained by one of three named deviations) and emits every progra
 abstract steps up to a depth.  Each program is instantiated with concrete numpy routes from
 a catalogue (item/slice/mask/fancy assignment, all in-place operators and methods, C-level
 writers, view creators, readers) for the dtypes/shapes trimesh stores and replayed on real
-TrackedArray objects.  After every hash step the real `__hash__()` is compared with
-hash_fast of the mirror bytes.  A stale hash is a VIOLATION unless the as-built model
+TrackedArray objects.  After every hash step the real `__hash__()` is compared with the
+`__hash__()` of a fresh tracked array built from a copy of the mirror content (no hash formula is
+assumed).  A stale hash is a VIOLATION unless the as-built model
 predicts staleness at that step through a listed deviation (known finding).  Container
 hashes (Trimesh, Path2D, PointCloud, ColorVisuals, Scene) are compared with the hash of a
 freshly built container at the end of every program.
+
+Coverage audit additions:
+* array kinds (n,2) float64, 3-D bool, (3,) and (4,4) float64; containers Path2D, face colours,
+  TextureVisuals uv, PointCloud colours, a scene of point cloud + mesh + path;
+* overridden routes __imatmul__, np.put / np.put_along_axis, further index forms; C-level routes
+  out=(a,), positional out, where=, two-output ufuncs, accumulate, cumsum/round/choose/matmul/dot
+  with out=, nditer readwrite, `a.flat = x`, `a.flat[i:j] = x`; view creators changing the dtype,
+  numpy functions returning views, as_strided(subok=True);
+* plain aliases that are not numpy views of the tracked object (np.frombuffer, memoryview, .base,
+  np.ndarray(buffer=), as_strided, ascontiguousarray, dlpack, __array_interface__), attributed to
+  BaseClassViewWrite by the as-built model;
+* QViews in TrackedArray.tla: tracked aliases made through a plain intermediary
+  (caching.tracked_array(a), np.asarray(a).view(TrackedArray)) whose creation does not mark the source;
+  the as-built model attributes the resulting stale reads to ViewHeldAcrossHash;
+* container-level histories (read / edit / edit again / restore / twin built separately) on 11 kinds of
+  container judged by TLC against spec/C02ContainerHash.tla (checks/c02_containers.py);
+* more construction routes for 'equal arrays hash equal'.
+Every catalogue entry, array kind and container must really have been exercised (MachineryError otherwise).
 """
 import sys
 import time
@@ -536,7 +555,7 @@ def _scene3(trimesh, m):
 
 def replay_one(env, beh, variant, kind, container, stats):
     """Replay one abstract program. Returns (failures, known, drift); counts what was exercised in stats."""
-    caching, hash_fast, trimesh, readcls = env
+    caching, trimesh, readcls = env
     h = beh["h"]
     fails, known, drift = [], [], 0
     made = {"r": "root", "s": "root"}      # how each object came to be
@@ -631,7 +650,9 @@ def replay_one(env, beh, variant, kind, container, stats):
             raise MachineryError("behaviour uses dead object")
         if op == "hash":
             got = a.__hash__()
-            true = hash_fast(np.ascontiguousarray(mirror[an]).tobytes())
+            # the property-level value: the hash of a FRESH tracked array, built without history from a
+            # C-ordered copy of the current content (same dtype and shape as the object that was read)
+            true = caching.tracked_array(np.array(mirror[an], order="C", copy=True)).__hash__()
             if got != true:
                 rec = {"clause": "HashFresh", "step": j, "array": an, "routes": routes_used,
                        "kind": kind, "container": container, "program": h}
@@ -802,7 +823,7 @@ def replay_one(env, beh, variant, kind, container, stats):
 def _chunk(args):
     trimesh = import_trimesh()
     from trimesh import caching
-    env = (caching, caching.hash_fast, trimesh, probe_reads(caching))
+    env = (caching, trimesh, probe_reads(caching))
     out_f, out_k = [], {}
     drift = 0
     n = 0
